@@ -89,6 +89,11 @@ func (s *Server) handleConnection(conn net.Conn) {
 		}
 	}
 
+	// a reply is a single length-encoded part, which clients refuse to decode
+	// if it is longer than MaxRequestLength: keep "OK"/"NO" + " " + message within it
+	if len(resp.Message) > MaxRequestLength-3 {
+		resp.Message = resp.Message[:MaxRequestLength-3]
+	}
 	resp.Encode(conn) //nolint:errcheck
 }
 
